@@ -18,21 +18,27 @@
 (*                  expected ones (decoration columns excepted)             *)
 (*   NoGhosts       rows the previous frame used below the current one are  *)
 (*                  blank                                                   *)
+(*   SameTop        (wait lines with sametop) the frame starts on the row   *)
+(*                  the previous frame started on: redisplays of one edit   *)
+(*                  do not stack up or creep                                *)
 (* Deviation actions for open findings are named Dev_* (see Open).          *)
 (***************************************************************************)
 EXTENDS Terminal, Layout, Json, TLCExt
 CONSTANT Open
-VARIABLES l, prevBottom      \* prevBottom: absolute row (row + scrolled) of the last row of the previous frame, -1 = none
-xvars == <<tvars, l, prevBottom>>
+VARIABLES l, prevBottom,     \* prevBottom: absolute row (row + scrolled) of the last row of the previous frame, -1 = none
+          prevTop            \* absolute row of the first row of the previous frame
+xvars == <<tvars, l, prevBottom, prevTop>>
 TraceLog == ndJsonDeserialize("trace.ndjson")
 Ev == TraceLog[l]
 Is(e) == l <= Len(TraceLog) /\ Ev.ev = e /\ l' = l + 1
 
-TInit == TermInit(80, 24) /\ l = 1 /\ prevBottom = -1
+TInit == TermInit(80, 24) /\ l = 1 /\ prevBottom = -1 /\ prevTop = -1
 TReset == /\ Is("reset")
           /\ W' = Ev.w /\ H' = Ev.h /\ grid' = BlankGrid(Ev.w, Ev.h) /\ r' = 0 /\ c' = 0 /\ wrapPending' = FALSE
-          /\ scrolled' = 0 /\ hidden' = FALSE /\ cstyle' = 0 /\ prevBottom' = -1
-TOut == Is("out") /\ Apply(Ev) /\ UNCHANGED <<W, H, prevBottom>>
+          /\ scrolled' = 0 /\ hidden' = FALSE /\ cstyle' = 0 /\ prevBottom' = -1 /\ prevTop' = -1
+TOut == /\ Is("out")
+        /\ IF Ev.tok = "resize" THEN Resize(Ev.a, Ev.b) ELSE Apply(Ev) /\ UNCHANGED <<W, H>>
+        /\ UNCHANGED <<prevBottom, prevTop>>
 
 IsText(g) == g \notin {0, 32, -1}
 MaxRow(F) == LET rs == { F.pos[i][1] : i \in 1..Len(F.pos) } IN CHOOSE m \in rs : \A x \in rs : x <= m
@@ -63,7 +69,10 @@ TWait ==
           /\ ~wrapPending
           /\ ShowsExactly(F, top)
           /\ Ev.ghost => NoGhosts(F, top)
+          \* SameTop: within one edit the frame does not creep up or down the screen
+          /\ (Ev.sametop /\ prevTop >= 0) => top + scrolled = prevTop
           /\ prevBottom' = top + MaxRow(F) + scrolled
+          /\ prevTop' = top + scrolled
   /\ UNCHANGED tvars
 
 TNext == TReset \/ TOut \/ TWait
